@@ -679,13 +679,32 @@ fn lets_worker(cfgs: Vec<usize>) -> (u64, u64, Vec<String>, Vec<String>) {
 /// expression directly after an operator that needs an operand (`a |> >> x`, `a => = x`, ..) is REJECTED, never accepted with the
 /// stray tokens dropped.
 pub fn run_sizes(args: &[String]) {
-    let cfgs: Vec<usize> = args[0].split(',').map(|c| config_by_name(c).expect("config")).collect();
+    let all: Vec<usize> = args[0].split(',').map(|c| config_by_name(c).expect("config")).collect();
     let t0 = std::time::Instant::now();
+    // one worker per config
+    // (deep programs recurse deeply in syn and in the generator: the workers get the stack a rustc thread has)
+    let hs: Vec<_> = all.iter().map(|c| { let c = *c; std::thread::Builder::new().stack_size(512 << 20).spawn(move || sizes_worker(vec![c])).unwrap() }).collect();
+    let (mut n, mut nviol, mut viols, mut samples) = (0u64, 0u64, vec![], vec![]);
+    for h in hs {
+        let (a, b, c, d) = h.join().unwrap();
+        n += a;
+        nviol += b;
+        viols.extend(c);
+        samples.extend(d);
+    }
+    println!(
+        "{{\"mode\":\"c15sizes\",\"sequences\":{},\"expansions\":{},\"nviol\":{},\"viols\":[{}],\"classes\":[],\"samples\":[{}],\"secs\":{:.1}}}",
+        n, n, nviol, viols.into_iter().take(10).collect::<Vec<_>>().join(","), samples.into_iter().take(2).collect::<Vec<_>>().join(","), t0.elapsed().as_secs_f64()
+    );
+}
+
+fn sizes_worker(cfgs: Vec<usize>) -> (u64, u64, Vec<String>, Vec<String>) {
     let (mut n, mut nviol) = (0u64, 0u64);
     let mut viols: Vec<String> = vec![];
     let mut samples: Vec<String> = vec![];
     let mut valid_inputs: Vec<String> = vec![];
-    for nb in 1..=40usize {
+    let widths: Vec<usize> = (1..=40usize).chain([63, 64, 65, 66, 127, 128, 129, 130, 255, 256, 257]).collect();
+    for nb in widths {
         for form in 0..3 {
             let parts: Vec<String> = (0..nb)
                 .map(|b| match form {
@@ -697,7 +716,8 @@ pub fn run_sizes(args: &[String]) {
             valid_inputs.push(parts.join(", "));
         }
     }
-    for d in 1..=40usize {
+    let depths: Vec<usize> = (1..=40usize).chain([63, 64, 65, 66, 127, 128, 129]).collect();
+    for d in depths {
         let mut one = String::from("x");
         for k in 1..d {
             one.push_str(&format!(" ~|> f{} ?? {{ q{} }}", k, k));
@@ -768,8 +788,5 @@ pub fn run_sizes(args: &[String]) {
             }
         }
     }
-    println!(
-        "{{\"mode\":\"c15sizes\",\"sequences\":{},\"expansions\":{},\"nviol\":{},\"viols\":[{}],\"classes\":[],\"samples\":[{}],\"secs\":{:.1}}}",
-        n, n, nviol, viols.join(","), samples.join(","), t0.elapsed().as_secs_f64()
-    );
+    (n, nviol, viols, samples)
 }
